@@ -29,9 +29,9 @@ def cdivQ (n d : Int) : Int := -(Int.fdiv (-n) d)
 /-- `crem` -/
 def cmodR (n d : Int) : Int := -(Int.fmod (-n) d)
 /-- `divmod`, `quo`: quotient of the division with non-negative remainder -/
-def edivQ (n d : Int) : Int := Int.ediv n d
+def edivQ (n d : Int) : Int := n / d
 /-- `mod`, `modin`, `divmod`, `rem`: `0 ≤ r < |d|` -/
-def emodR (n d : Int) : Int := Int.emod n d
+def emodR (n d : Int) : Int := n % d
 
 def land (a b : Int) : Int := iland a b
 def lor (a b : Int) : Int := ilor a b
@@ -46,11 +46,12 @@ def lcm (a b : Int) : Int := (Int.lcm a b : Int)
 def pow (b e : Int) : Int := b ^ e.toNat
 def isqrt (a : Int) : Int := (Nat.sqrt a.toNat : Int)
 /-- `powmod`: the representative in `[0, |m|)` -/
-def powmod (b e m : Int) : Int := Int.emod (b ^ e.toNat) m
+def powmod (b e m : Int) : Int := (b ^ e.toNat) % m
 /-- certificate for a modular inverse: `0 ≤ u < |m|` (or `u = 0` when `|m| = 1`) and `u·a ≡ 1 (mod m)` -/
-def isInvMod (u a m : Int) : Bool := decide (0 ≤ u ∧ u < iabs m ∧ Int.emod (u * a) m = Int.emod 1 m)
+def isInvMod (u a m : Int) : Bool := decide (0 ≤ u ∧ u < iabs m ∧ (u * a) % m = 1 % m)
 /-- certificate for an extended gcd -/
 def isBezout (g u v a b : Int) : Bool := decide (g = (Int.gcd a b : Int) ∧ u * a + v * b = g)
-def bitsize (a : Int) : Int := if a = 0 then 1 else ((Nat.log2 a.natAbs + 1 : Nat) : Int)
+/-- number of binary digits of `|a|` (1 for 0) -/
+def bitsize (a : Int) : Int := (ndigits 2 a.natAbs a.natAbs : Nat)
 
 end Givaro.Spec
